@@ -2,9 +2,9 @@ package main
 
 import (
 	"fmt"
-	"regexp"
 	"go/token"
 	"go/types"
+	"regexp"
 	"sort"
 	"strings"
 )
@@ -57,18 +57,20 @@ type WatchTerm struct {
 // Ctx accumulates the SMT prelude and the ordered list of items for one
 // function under contract (or one lemma).
 type Ctx struct {
-	decls    []string
-	items    []Item
-	n        int
-	strLits  map[string]string // Go string constant -> SMT name
-	strOrder []string
-	ufs      map[string]bool
-	typeTags map[string]int
-	globals  map[string]bool
-	trusted  map[string]bool // trusted-table entries and assumed contracts used
-	notes    map[string]bool // abstractions applied (havocked instructions, ...)
-	boolDefs  map[string]string
-	boolDefsN int
+	decls       []string
+	items       []Item
+	n           int
+	strLits     map[string]string // Go string constant -> SMT name
+	strOrder    []string
+	boxedBasic  map[int]types.Type // tags of basic types (their interface values are compared by content)
+	pendingGone string             // message of a goal clause that could not be stated (attached to the next obligation)
+	ufs         map[string]bool
+	typeTags    map[string]int
+	globals     map[string]bool
+	trusted     map[string]bool // trusted-table entries and assumed contracts used
+	notes       map[string]bool // abstractions applied (havocked instructions, ...)
+	boolDefs    map[string]string
+	boolDefsN   int
 	defCache    map[string]string
 	lastDefined string
 	syms        map[string]map[string]bool
@@ -87,6 +89,8 @@ func newCtx() *Ctx {
 		"(declare-const str_empty Str)",
 		"(assert (= (slen str_empty) (_ bv0 64)))",
 		"(declare-fun objtype (Int) Int)",
+		"(declare-fun boxedtag (Int) Bool)",
+		"(assert (not (boxedtag 0)))",
 	)
 	return c
 }
@@ -169,6 +173,10 @@ func (c *Ctx) assume(guard, formula string) {
 func (c *Ctx) oblige(it Item) {
 	it.Kind = ItOblig
 	it.DeclPos = len(c.decls)
+	if c.pendingGone != "" {
+		it.Text += "   [cannot be stated: " + c.pendingGone + "]"
+		c.pendingGone = ""
+	}
 	if it.Expect == "" {
 		it.Expect = "unsat"
 	}
@@ -228,6 +236,16 @@ func (c *Ctx) typeTag(t types.Type) string {
 	}
 	n := len(c.typeTags) + 1
 	c.typeTags[k] = n
+	// how values of this dynamic type sit in an interface: pointer-shaped
+	// types by reference, all others boxed (compared by value)
+	boxed := !(pointerLike(t) || refLike(t))
+	c.raw(fmt.Sprintf("(assert (= (boxedtag %d) %v))", n, boxed))
+	if b, ok := t.Underlying().(*types.Basic); ok && boxed && b.Kind() != types.UnsafePointer {
+		if c.boxedBasic == nil {
+			c.boxedBasic = map[int]types.Type{}
+		}
+		c.boxedBasic[n] = t
+	}
 	return fmt.Sprint(n)
 }
 
